@@ -1,5 +1,5 @@
 import CashewsVerif.Driver.Proto
-import CashewsVerif.Model.Disable
+import CashewsVerif.Model.DisableCompose
 /- Driver for C17: a history of registrations, control operations and public commands (through the
 default middleware stack), one answer per request line.
 
@@ -119,6 +119,72 @@ def showStart (old new : CSt) : String :=
       | none => "?"
   s!"start={what} calls={showCalls (new.calls.drop old.calls.length)}"
 
+/-- a list of strings: `~` = none, otherwise encoded strings joined by `+` -/
+def parseStrs? (s : String) : Option (List (List Nat)) :=
+  if s = "~" then some [] else allSome ((s.splitOn "+").map parseStr?)
+
+/-- one (abstracted) backend answer: N(one) D(efault) F(alsy) T(ruthy) X(raised) K<members> -/
+def parseAns? (s : String) : Option Ans :=
+  if s = "N" then some .none_ else if s = "D" then some .dflt else if s = "F" then some .falsy
+  else if s = "T" then some .truthy else if s = "X" then some .raised
+  else if s = "K" then some (.keys [])
+  else if s.startsWith "K" then (parseStrs? (s.drop 1).toString).map .keys
+  else none
+
+def parseAnsList? (s : String) : Option (List Ans) :=
+  if s = "~" then some [] else allSome ((s.splitOn ",").map parseAns?)
+
+/-- `<call index>:<invocation>/<invocation>...`, an invocation = the tags of its keys joined by `+` -/
+def parseCbEntry? (s : String) : Option (Nat × List (List (List Nat))) :=
+  match s.splitOn ":" with
+  | [i, invs] => do
+    let i ← i.toNat?
+    let invs ← allSome ((invs.splitOn "/").map parseStrs?)
+    pure (i, invs)
+  | _ => none
+
+def parseCb? (s : String) : Option (List (Nat × List (List (List Nat)))) :=
+  if s = "~" then some [] else allSome ((s.splitOn ";").map parseCbEntry?)
+
+def mkEnv (ans : List Ans) (cb : List (Nat × List (List (List Nat)))) : Env :=
+  ⟨fun n => ans.getD n .none_, fun n => ((cb.find? fun x => x.1 == n).map fun x => x.2).getD []⟩
+
+def parseComp? (name : String) (keys tags : List (List Nat)) : Option Comp :=
+  match name, keys with
+  | "set_tags", [k] => some (.setTagged k tags)
+  | "incr_tags", [k] => some (.incrTagged k tags)
+  | "get_or_set", [k] => some (.getOrSet k)
+  | "delete_tags", [] => some (.deleteTags tags 8)
+  | "lock", [k] => some (.lock k false 64)
+  | "lock_wait", [k] => some (.lock k true 64)
+  | "invalidate", [k] => some (.invalidate k)
+  | n, ks =>
+    if n.startsWith "one:" then
+      let cmd := (n.drop 4).toString
+      match cmd, ks with
+      | "get_many", ks => some (.one (.getMany ks))
+      | "set_many", ks => some (.one (.setMany ks))
+      | "delete_many", ks => some (.one (.deleteMany ks))
+      | "clear", [] => some (.one .clear)
+      | "get_keys_count", [] => some (.one .keysCount)
+      | c, [k] => (parseCmd? c).map fun c => .one (.keyed c k)
+      | _, _ => none
+    else none
+
+def showOut : POut → String
+  | .ret _ => "ret"
+  | .locked => "locked"
+  | .notConfigured => "NC"
+  | .raised => "raised"
+  | .outOfFuel => "fuel"
+
+def seqOf : List PEv → List String
+  | [] => []
+  | .sub _ calls _ :: r => calls.map showBCall ++ seqOf r
+  | .body :: r => "B" :: seqOf r
+
+def showSeq (l : List String) : String := if l.isEmpty then "-" else ";".intercalate l
+
 def parseTx? (s : String) : Option Bool :=
   if s = "0" then some false else if s = "1" then some true else none
 
@@ -225,6 +291,17 @@ def step (st : St) (line : String) : St × String :=
       | .cmd (some (res, cs)) => ({ st with s := r.1 }, s!"res={showRes res} calls={showBCalls cs}")
       | _ => (st, "bad-op")
     | _, _, _ => (st, "bad-op")
+  | ["comp", c, tx, name, keys, tags, ans, cb] =>
+    -- a composite command of the facade; `ans` / `cb` describe what the backends did (see `mkEnv`)
+    match c.toNat?, parseTx? tx, parseStrs? keys, parseStrs? tags, parseAnsList? ans, parseCb? cb with
+    | some c, some tx, some keys, some tags, some ans, some cb =>
+      match parseComp? name keys tags with
+      | none => (st, "bad-op")
+      | some cm =>
+        let r := compStep st.s c tx (mkEnv ans cb) cm
+        ({ st with s := r.1 },
+          s!"out={showOut r.2.2} seq={showSeq (seqOf r.2.1)} cbs={showCalls (PEv.cbcalls r.2.1)}")
+    | _, _, _, _, _, _ => (st, "bad-op")
   | _ => (st, "bad-op")
 
 def main : IO Unit := mainLoop step St.fresh
